@@ -19,7 +19,10 @@ LEVEL = "exploration"
 RULE = ("one evaluation = one source text (expression of the construct matrix, harvested/mutated program, random byte string) parsed and, if "
         "accepted, executed under ASan+UBSan through one entry route; held = outcome in {completed, ParseError, RuntimeError} with no sanitizer "
         "report, fatal signal, std::terminate or foreign exception; non-trivial = the text was accepted by the parser and executed (value or "
-        "RuntimeError), or it was rejected after at least 3 tokens; distinct = distinct (route, text, operand values) hashes")
+        "RuntimeError), or it was rejected after at least 3 tokens; distinct = distinct (route, text, operand values) hashes. Thorough tier in addition: "
+        "6 libFuzzer processes (clang ASan+UBSan build of the working tree, entry = parse+run in an untrusted context, 250k units each, 3000-statement "
+        "budget); one evaluation = one executed unit, distinct non-trivial = inputs kept in the final corpus (each reached new coverage); every "
+        "artifact is re-run through the gcc-built monitor and judged by the same rule")
 ASSUMPTIONS = ["gcc ASan/UBSan runtimes (a clean run is not memory safety: non-adjacent overflows are invisible)",
                "stack/heap exhaustion out of domain: ASan allocation-size-too-big / out-of-memory / std::bad_alloc / std::length_error are classified "
                "out-of-domain when the case involves a magnitude > 2^20", "stdin readers (input/read/readln), import, include are not generated in-process"]
@@ -325,6 +328,67 @@ class Sh:
             self.text_case(t, r.choice(["cpp", "capi", "expr", "cexpr", "istmt", "frag"]), "bytes")
             if self.res["counters"].get("worker_crashes", 0) > CRASH_BUDGET: break
 
+    # ------------------------------------------------------------------ coverage-guided fuzzing (thorough tier)
+    def fuzz(self):
+        """libFuzzer (clang build of the working tree) on the program entry of an untrusted context; every artifact it
+        leaves is re-run through vprobe (gcc ASan+UBSan) and judged by the same rule as every other text of this check"""
+        import hashlib
+        d = self.desc
+        bdir = build("fuzz")
+        target = os.path.join(bdir, "harness", "fuzz_target")
+        work = tempfile.mkdtemp(prefix="c01fz_")
+        cdir = os.path.join(work, "corpus"); adir = os.path.join(work, "art"); os.makedirs(cdir); os.makedirs(adir)
+        for t in corpus.harvest():
+            b = t.encode("latin-1", "replace")
+            if len(b) < 2000:
+                with open(os.path.join(cdir, hashlib.sha1(b).hexdigest()[:16]), "wb") as f: f.write(b)
+        with open(os.path.join(work, "dict"), "w") as f:
+            for kw in corpus.KEYWORDS + list(BUILTINS):
+                if kw.isalnum() or "_" in kw: f.write('"%s"\n' % kw)
+        env = dict(os.environ)
+        env["LD_LIBRARY_PATH"] = os.path.join(bdir, "libonly")
+        env["ASAN_OPTIONS"] = "detect_leaks=0:allocator_may_return_null=1:abort_on_error=1"
+        env["UBSAN_OPTIONS"] = "print_stacktrace=1:halt_on_error=1"
+        left = d.get("runs", 150000); attempts = 0
+        try:
+            while left > 0 and attempts < 8:
+                attempts += 1
+                cmd = [target, "-runs=%d" % left, "-max_len=1500", "-malloc_limit_mb=512", "-rss_limit_mb=3000", "-timeout=30", "-print_final_stats=1",
+                       "-dict=" + os.path.join(work, "dict"), "-artifact_prefix=" + adir + "/", "-seed=%d" % (d["seed"] * 100 + d["k"] * 10 + attempts), cdir]
+                try:
+                    p = subprocess.run(cmd, env=env, stdin=subprocess.DEVNULL, stdout=subprocess.DEVNULL, stderr=subprocess.PIPE, cwd=work, timeout=7200)
+                except subprocess.TimeoutExpired:
+                    self.res["inconclusive"] += 1; bump(self.res, "fuzz_watchdog"); break
+                err = p.stderr.decode("utf-8", "replace")
+                m = re.search(r"stat::number_of_executed_units:\s*(\d+)", err)
+                done = int(m.group(1)) if m else 0
+                if not m:
+                    last = re.findall(r"^#(\d+)\s", err, re.M)
+                    done = int(last[-1]) if last else 0
+                cov = [int(x) for x in re.findall(r"cov: (\d+)", err)]
+                if cov: self.res["counters"]["fuzz_edges_covered_max"] = max(self.res["counters"].get("fuzz_edges_covered_max", 0), max(cov))
+                self.res["evaluations"] += done; bump(self.res, "fuzz_units_executed", done)
+                self.res["nontrivial_count"] = self.res.get("nontrivial_count", 0) + len(os.listdir(cdir))
+                left -= max(done, 1)
+                arts = sorted(os.listdir(adir))
+                if not arts:
+                    if p.returncode != 0 and done == 0:
+                        raise HarnessFailure("fuzz_target failed to run: rc=%s\n%s" % (p.returncode, err[-1500:]))
+                    break
+                for a in arts:
+                    ap = os.path.join(adir, a)
+                    with open(ap, "rb") as f: text = f.read()
+                    os.unlink(ap)
+                    bump(self.res, "fuzz_artifacts")
+                    before = len(self.res["violations"]); ood = self.res["out_of_domain"]; inc = self.res["inconclusive"]
+                    for route in ("cpp", "capi"):
+                        self.text_case(text, route, "fuzz-artifact")
+                    if len(self.res["violations"]) == before and self.res["out_of_domain"] == ood and self.res["inconclusive"] == inc:
+                        # libFuzzer stopped on it (its own limits: 30 s per unit, 512 MB per allocation) but the monitored run is clean
+                        bump(self.res, "fuzz_artifacts_not_reproduced_" + a.split("-")[0]); self.res["inconclusive"] += 1
+        finally:
+            shutil.rmtree(work, ignore_errors=True)
+
     # ------------------------------------------------------------------ bloc binary
     def cli(self):
         d = self.desc; r = self.rnd
@@ -379,6 +443,8 @@ def plan(tier, seed):
     for k in range(3): sh.append({"kind": "programs", "k": k, "n": 3, "seed": seed, "tier": tier})
     for k in range(2): sh.append({"kind": "bytes", "k": k, "n": 2, "seed": seed, "tier": tier})
     sh.append({"kind": "cli", "k": 0, "n": 1, "seed": seed, "tier": tier})
+    if tier == "thorough":
+        for k in range(6): sh.append({"kind": "fuzz", "k": k, "n": 6, "seed": seed, "tier": tier, "runs": 250000})
     return sh
 
 
@@ -388,6 +454,7 @@ def run_shard(desc):
         if desc["kind"] == "matrix": s.matrix()
         elif desc["kind"] == "programs": s.programs()
         elif desc["kind"] == "bytes": s.rbytes()
+        elif desc["kind"] == "fuzz": s.fuzz()
         else: s.cli()
     finally:
         s.probe.close()
